@@ -124,7 +124,8 @@ def run(tier):
             ("dfs4", {"progs": PROGS["P4t"], "preempt": 2, "max_runs": 20000, "spur": 0, "eintr": 0}),
             ("rnd4", {"progs": [LAU + LAU, LAU + TAU, TAU + LAU, LAU + LAU], "runs": 3000, "spur": 1, "eintr": 1}),
         ]
-    return LC.run(tier, tours, configs, configs_if_differs, specs)
+    stress = {"threads": 4, "sections": 1500} if tier == "quick" else {"threads": 8, "sections": 10000}
+    return LC.run(tier, tours, configs, configs_if_differs, specs, stress=stress)
 
 
 def replay(path):
